@@ -175,9 +175,15 @@ def build_driver():
     return True, out
 
 
-def harness(args, timeout=1500):
+class Stalled(Exception):
+    pass
+
+
+def harness(args, timeout=900):
     """run a harness subcommand, parse its JSON summary"""
     rc, out, dt = run([os.path.join(BIN, "harness")] + args, timeout=timeout, env=GOENV)
+    if rc == 124:
+        raise Stalled("harness %s did not finish within %ss" % (" ".join(args[:3]), timeout))
     lines = [l for l in out.split("\n") if l.startswith("{")]
     if rc != 0 or not lines:
         raise Broken("harness %s failed (rc=%s):\n%s" % (args[0], rc, out[-3000:]))
